@@ -114,9 +114,7 @@ def handle (op : String) (args : List String) : Option String :=
     | .error e => pure (encFail e)
     | .ok tv => pure (ans encGVal (sentToDevice tv))
   | "rt", [_, g, o] => do
-    match toNative (← decGVal g) (← decOpts o) with
-    | .error e => pure (encFail e)
-    | .ok tv => pure (ans encGVal (toGnmi tv))
+    pure (ans encGVal (roundTrip (← decGVal g) (← decOpts o)))
   | "json", [_, rfc, nl, t] => do
     pure (ansJson (jsonLeaf (← decFlag rfc) (← decFlag nl) (← decTV t)))
   | "jsonof", [_, rfc, stored, g, o] => do
